@@ -1,5 +1,5 @@
 (* Executable model of packaging.licenses.canonicalize_license_expression (src/packaging/licenses/__init__.py as it is after
-   the five fix: commits 802ff3e 49e8c51 7e1baa1 9cd3216 9992710).  Definitions only; the proofs are in LicLex.v LicCode.v LicIdem.v.
+   the six fix: commits 802ff3e 49e8c51 7e1baa1 9cd3216 9992710 8e6ceae).  Definitions only; the proofs are in LicLex.v LicCode.v LicIdem.v.
    The function is mirrored statement by statement; the tables LICENSES / EXCEPTIONS are parameters (lists of (key, id)),
    instantiated by the generated coq/Gen/SpdxTable.v in LicRun.v. *)
 From Coq Require Import List NArith Bool.
@@ -164,7 +164,7 @@ Fixpoint final_pass (norm_rev : list str) (after_license : bool) (pairs : list (
         let suffix : str := if plus then [43] else [] in
         if prefixb licenseref_lc final_token then
           let ref := firstn (length original - length suffix) original in
-          if negb (ref_match ref) then PErr
+          if negb (ref_match ref) || Nat.eqb (length ref) (length licenseref_prefix) then PErr      (* ... or len(ref) == len(licenseref_prefix) *)
           else final_pass ((licenseref_prefix ++ skipn (length licenseref_prefix) ref ++ suffix) :: norm_rev) true r
         else
           if negb (mem final_token lics) || negb (forallb asciib original) then PErr
